@@ -98,7 +98,7 @@ func main() {
 	}
 	fmt.Println("node2 is stopped:")
 	node2.StopForce()
-	if !expect("stop", 5*time.Second) {
+	if !expect("stop", 6*time.Second) {
 		fmt.Println("VIOLATION (C18): the last subscriber is gone with its node, the producer was not told")
 		os.Exit(1)
 	}
